@@ -10,6 +10,12 @@ import (
 )
 
 func BuildSchemaValidation(schema *openapi3.SchemaRef, validationString string, fieldInterface string) {
+	// A reference shares its value with the referenced component (and OpenAPI 3.0 ignores siblings of $ref) -
+	// usage-site rules must never be written through it
+	if schema == nil || schema.Ref != "" || schema.Value == nil {
+		return
+	}
+
 	// Parse and apply validation rules from the Validator field
 	validationRules := strings.Split(validationString, ",")
 	for _, rule := range validationRules {
